@@ -121,6 +121,9 @@ class C07(Check):
                     continue
                 R, V, D = np.asarray(din["reward"], dtype=float), np.asarray(din["visibility"], dtype=bool), np.asarray(dout, dtype=bool)
                 pol = din["policy"]
+                if R.shape == V.shape and not np.all(np.isfinite(R[V])):
+                    cnt["reward_not_finite"] = cnt.get("reward_not_finite", 0) + 1
+                    continue
                 where = f"step {k} engine {eid} policy {pol} reward {R.tolist()} visibility {V.astype(int).tolist()} decision {D.astype(int).tolist()}"
                 if D.shape != V.shape or R.shape != V.shape:
                     viol.append({"clause": "shape", "key": pol, "detail": where})
@@ -169,6 +172,11 @@ class C07(Check):
                 if raw is not None and np.asarray(raw["metrics"]).shape == M.shape:
                     RAW = np.asarray(raw["metrics"], dtype=float)
                     for mi, name in enumerate(rc["names"]):
+                        if not np.all(np.isfinite(RAW[..., mi])):
+                            # a metric that is not a number (e.g. the log of a ratio of covariance determinants that underflowed or came out negative):
+                            # numerical breakdown of the filter, the statement's matrices are finite
+                            cnt["metric_not_finite"] = cnt.get("metric_not_finite", 0) + 1
+                            continue
                         mx = float(RAW[..., mi].max()) if RAW[..., mi].size else 0.0
                         want = RAW[..., mi] / mx if mx > 0 else RAW[..., mi]
                         if not np.allclose(M[..., mi], want, rtol=1e-12, atol=0) or (M[..., mi].size and float(M[..., mi].max()) > 1 + 1e-12):
